@@ -268,18 +268,30 @@ def run(ctx):
         cases = g.cu(L, 2, 4, 99, p, p, poolB=p, poolC=p, simulate=(200 if q else 2000), simlen=rnd.choice([8, 12]),
                      seed=ctx.seed * 100 + 50 + i)
         ctx.replay(cases)
-    # many unions (14..24): index sets of the overlaps that are easy to confuse when rendered as text
-    for NU in ([rnd.randrange(14, 25)] if q else [14, 24, rnd.randrange(15, 24)]):
+    # many unions: index sets of the overlaps that are easy to confuse when rendered as text (14..24 unions),
+    # and indices around the machine-word boundaries 64 and 128 (65..130 unions)
+    small = [rnd.randrange(14, 25)] if q else [14, 24, rnd.randrange(15, 24)]
+    large = [rnd.choice([65, 66, 70, 129, 130])] if q else [63, 64, 65, 66, 70, 128, 129, 130]
+    for NU in small + large:
         L = 3
-        groups = confusable_index_sets(NU)
-        chosen = rnd.sample(groups, min(len(groups), 3 if q else 8))
+        NF = 2 if NU <= 24 else 3
+        groups = confusable_index_sets(min(NU, 24))
+        chosen = rnd.sample(groups, min(len(groups), 3 if q else 8) if NU <= 24 else 1)
         idxsets = set(frozenset(s) for grp in chosen for s in grp)
         idxsets.add(frozenset(rnd.sample(range(NU), rnd.randrange(2, 5))))
+        if NU > 24:
+            edge = [(7, 66), (64, 65), (67, 69), (62, 63), (63, 64), (0, 64), (1, 63, 65), (31, 32), (127, 128),
+                    (128, 129), (5, 129), (64, 128), (NU - 2, NU - 1), (0, NU - 1)]
+            edge = [e for e in edge if max(e) < NU]
+            idxsets.update(frozenset(e) for e in rnd.sample(edge, min(len(edge), 5 if q else 8)))
+            idxsets.add(frozenset(rnd.sample(range(max(0, NU - 8), NU), 3)))
         top = rnd.randrange(4)
-        regions = ids(L, rnd.sample(subtree(L, 0, [top]), 3 if q else 5) + [(0, ((top + 1) % 4,))])
-        fillers = ids(L, rnd.sample([c for c in subtree(L, 1, []) if len(c[1]) == L], NU))
-        bare = set(rnd.sample(range(NU), 2))
-        cases = g.many(L, 2, NU, idxsets, regions, fillers, bare)
+        regions = ids(L, rnd.sample(subtree(L, 0, [top]), 3 if q or NU > 24 else 5) + [(0, ((top + 1) % 4,))])
+        leaves = [c for f in range(1, NF) for c in subtree(L, f, []) if len(c[1]) == L]
+        nbare = max(2, NU - len(leaves) + rnd.randrange(0, 3))
+        bare = set(rnd.sample(range(NU), nbare))
+        fillers = ids(L, rnd.sample(leaves, NU - nbare))
+        cases = g.many(L, NF, NU, idxsets, regions, fillers, bare)
         ctx.replay(cases)
     # ---- 4. minimal tilings of leaf ranges, MaxTile
     if q:
